@@ -230,7 +230,7 @@ def _collect(shard, seed, n):
 
 
 def main(ctx):
-    col = common.run_shards(_collect, 8 if ctx.quick else 16, ctx.seed, n=80 if ctx.quick else 2500)
+    col = common.run_shards(_collect, 8 if ctx.quick else 16, ctx.seed, n=140 if ctx.quick else 2500)
     for path, rec in common.load_replays(PID):
         col.record(rec["case"], run_case(rec["case"]), nontrivial=True, classes=["replay"])
     ctx.required_classes = ["message-spans-reads", "messages-share-a-read", "prefix-with-switch", "preempted-at-source-line",
